@@ -78,6 +78,7 @@ def composition(res, sc, thorough, rng, rb):
     """the epoch clock as wired: poller + fan-out + notifier"""
     mc = V.model_check("PollEpoch.tla", "PollEpochThorough.cfg" if thorough else "PollEpoch.cfg", sc, timeout=1800)
     mcr = V.model_check("PollEpoch.tla", "PollEpochReorderSafe.cfg", sc, timeout=1800)
+    mcs = V.model_check("PollEpoch.tla", "PollEpochSub.cfg", sc, timeout=1800)
     cex = V.model_counterexample("PollEpoch.tla", "PollEpochReorder.cfg", "AtFirstPublished", sc, timeout=900)
     if rb is None:
         cases, gst = V.export_cases("PollEpoch.tla", "PollEpochGen.cfg", sc, timeout=900)
@@ -100,9 +101,26 @@ def composition(res, sc, thorough, rng, rb):
         n_edge = len(behs)
         # the same polls through the repository's own fan-out
         behs += [dict(b, real=True) for b in behs[:: 4]]
+        # a subscriber that takes the epoch events when it wants to: they wait in the notifier's own (real) fan-out
+        scases, sgst = V.export_cases("PollEpoch.tla", "PollEpochGenSub.cfg", sc, timeout=900)
+        spaths = V.drop_prefixes([[c["n"], c["s"], c["p"]] + [json.dumps(x, sort_keys=True) for x in c["steps"]] for c in scases])
+        sb = [dict(n=c[0], s=c[1], p=c[2], real=False, slowsub=True, steps=[json.loads(x) for x in c[3:]]) for c in spaths]
+        sb = [b for b in sb if any(st["a"] == "consume" for st in b["steps"]) or rng.random() < 0.2]
+        n_sub_all = len(sb)
+        if len(sb) > (5000 if thorough else 250):
+            sb = rng.sample(sb, 5000 if thorough else 250)
+        behs += sb
+        # ... and long runs of consecutive blocks during which the subscriber takes nothing at all
+        for _ in range(200 if thorough else 20):
+            N, S = rng.choice([1, 2, 3, 10]), rng.choice([0, 5])
+            steps, h = [], S
+            for _ in range(rng.randrange(3 * N + 2, 8 * N + 4)):
+                steps += [dict(a="poll", r=h)] + ([dict(a="deliver", i=1)] if len(steps) > 0 else [])
+                h += 1
+            behs.append(dict(n=N, s=S, p=rng.choice([0, 50, 99]), real=False, slowsub=True, steps=steps))
         behs += random_compositions(rng, 1500 if thorough else 150)
     else:
-        behs, n_edge, n_all, gst = rb, len(rb), len(rb), dict(distinct=0)
+        behs, n_edge, n_all, gst, n_sub_all = rb, len(rb), len(rb), dict(distinct=0), 0
     drv = V.build_driver("pollepoch")
     bf, tf = sc.path("pbeh.json"), sc.path("ptrace.ndjson")
     json.dump(behs, open(bf, "w"))
@@ -118,6 +136,7 @@ def composition(res, sc, thorough, rng, rb):
     npoll = sum(1 for e in evs if e["ev"] == "poll")
     nemit = sum(1 for e in evs if e["ev"] == "poll" and e["emitted"])
     npub = sum(1 for e in evs if e["ev"] == "block" and e["pub"])
+    nconsumed = sum(1 for e in evs if e["ev"] == "consume" and e["e"] >= 0)
     # how often the real fan-out completed its sends out of publication order (information)
     reordered, cur, inreal, order = 0, [], False, []
     for e in evs + [dict(ev="cfg", real=False)]:
@@ -130,8 +149,8 @@ def composition(res, sc, thorough, rng, rb):
         elif e["ev"] == "block":
             order.append(e["b"])
     if rb is None:
-        if nemit == 0 or npub == 0:
-            raise V.Infra("composition driver is dead: %d polls published, %d deliveries notified" % (nemit, npub))
+        if nemit == 0 or npub == 0 or nconsumed == 0:
+            raise V.Infra("composition driver is dead: %d polls published, %d deliveries notified, %d epoch events consumed" % (nemit, npub, nconsumed))
         # binding self-test: drop one recorded block publication of the poller -> the monitor must object
         k = next(i for i, e in enumerate(evs) if e["ev"] == "poll" and e["emitted"])
         start = max(i for i in range(k + 1) if evs[i]["ev"] == "cfg")
@@ -160,6 +179,8 @@ def composition(res, sc, thorough, rng, rb):
                                           "quantifier (increasing sequences handed to the notifier)"),
         generator_states=gst["distinct"], edge_cover_behaviours=n_all, replayed_edge_cover=n_edge, behaviours=len(behs),
         polls=npoll, polls_that_published=nemit, deliveries_that_notified=npub, real_fanout_traces_out_of_order=reordered,
+        slow_subscriber=dict(edge_cover_behaviours=n_sub_all, epoch_events_taken_by_subscriber=nconsumed,
+                             model=dict(cfg=mcs["cfg"], states=mcs["distinct"], wall_s=mcs["wall_s"])),
         monitor=dict(spec="PollEpochTrace.tla", events=len(evs), wall_s=info["wall_s"]), binding_selftest=selftest,
         sample=behs[0])
 
@@ -172,6 +193,9 @@ def body():
         rng = random.Random(V.seed())
         # (A) design
         mc = V.model_check("Epoch.tla", "Epoch.cfg", sc, timeout=900)
+        # unbounded: EpochInd.tla (the same step function; Epoch.cfg checks that Epoch.tla refines it) has an inductive
+        # invariant that implies the property for an arbitrary epoch, all N >= 1, S >= 0, P in 0..99 and all block numbers
+        ind = V.apalache_inductive("EpochInd.tla", sc)
         # behaviours: edge cover of the generator configuration
         cases, gst = V.export_cases("Epoch.tla", "EpochGenThorough.cfg" if thorough else "EpochGen.cfg", sc, timeout=900)
         cases = V.drop_prefixes([[c["n"], c["s"], c["p"]] + c["blocks"] for c in cases])
@@ -228,7 +252,10 @@ def body():
                  "sequences with gaps up to 10^6; non-trivial = block deliveries during which the real notifier published",
             model=dict(spec="Epoch.tla", cfg="Epoch.cfg", depth=mc["depth"], wall_s=mc["wall_s"],
                        constants="N in 1..5, start in {0,1,7}, P in 0..99, all increasing block sequences within 3 epochs",
-                       invariants=["ExactlyOnceAtFirst", "StrictlyIncreasing"], exhaustive=True),
+                       invariants=["ExactlyOnceAtFirst", "StrictlyIncreasing", "IndInvAll", "RefinesInd (action property)"], exhaustive=True),
+            unbounded=dict(ind, note="inductive invariant of EpochInd.tla discharged by Apalache for all N >= 1, S >= 0, P in 0..99, every epoch "
+                                     "E >= 1 and unbounded block numbers; TLC checks on Epoch.cfg that every step of Epoch.tla (the spec bound "
+                                     "to the code by replay) is a step of EpochInd.tla and that IndInv holds in its reachable states"),
             edge_cover_behaviours=n_edge, generator_states=gst["distinct"],
             monitor=dict(spec="EpochTrace.tla", events=len(evs), wall_s=info["wall_s"]),
             binding_selftest="dropped publication rejected: %s" % minfo["violations"][0]["inv"],
